@@ -626,6 +626,37 @@ fn recipients(rep: &mut Report, model: &mut Model, ctx: &Ctx, rng: &mut Rng) {
     }
 }
 
+/// the format puts no bound on the number of recipients: archives for many of them (header of
+/// several KiB) open for the first, a middle and the last recipient, and for nobody else
+fn many_recipients(rep: &mut Report, ctx: &Ctx, rng: &mut Rng) {
+    let counts: Vec<usize> = if ctx.thorough { vec![16, 84, 85, 86, 128, 300, 1000] } else { vec![85 + rng.below(3) as usize, 300] };
+    for n in counts {
+        let recs: Vec<[u8; 32]> = (0..n).map(|_| rand_key(rng)).collect();
+        let layers = if n % 2 == 0 { L_ENC } else { L_ENC | L_COMP };
+        let cfg = Cfg { layers, level: 5, recipients: recs.clone(), reader: 0 };
+        let content = rng.bytes(500, 2);
+        let ops = vec![Op::Add { name: "doc".into(), size: content.len() as u64, src: content.clone() }, Op::Finalize];
+        let m = make(&cfg, &ops);
+        let case = json!({"kind":"recipients","cfg": {"layers": layers, "recipients": n}, "what": "many recipients"});
+        rep.eval(hash_value(&json!(["many", n, hx(&m.bytes[..64.min(m.bytes.len())])])), true);
+        rep.count("recipients:many");
+        for i in [0, n / 2, n - 1] {
+            let got = open_with(&m.bytes, &[recs[i]], "doc");
+            let fs = failsafe_open_with(&m.bytes, &[recs[i]]);
+            if got.as_ref().ok() != Some(&content) || fs.is_err() {
+                rep.violation("oracle", "C07/recipient", json!({"check":"recipient-opens","many":true}),
+                    &format!("archive for {n} recipients: recipient {i} cannot open it (normal reader {:?}, fail-safe reader {:?})", got.as_ref().map(|v| v.len()), fs), case.clone());
+                return;
+            }
+        }
+        let stranger = rand_key(rng);
+        if open_with(&m.bytes, &[stranger], "doc").is_ok() {
+            rep.violation("oracle", "C07/recipient", json!({"check":"non-recipient-refused","many":true}), &format!("archive for {n} recipients opens for a stranger"), case.clone());
+            return;
+        }
+    }
+}
+
 // ---------------------------------------------------------------------------------------------
 
 /// descend from a replay file (the violation object written by `check`) to the case of this module
@@ -673,6 +704,7 @@ pub fn run(ctx: &Ctx) -> Report {
             let c = Ctx { tier: ctx.tier.clone(), seed: ctx.seed, thorough: ctx.thorough, replay: None };
             freshness(&mut rep, &c);
             recipients(&mut rep, &mut model, &c, &mut rng);
+            many_recipients(&mut rep, &c, &mut rng);
         }
         return rep;
     }
@@ -682,6 +714,7 @@ pub fn run(ctx: &Ctx) -> Report {
     markers(&mut rep, &mut model, ctx, &mut rng);
     if !CONSTS.scaled && !rep.full() {
         recipients(&mut rep, &mut model, ctx, &mut rng);
+        many_recipients(&mut rep, ctx, &mut rng);
     }
     rep.assumptions.push("freshness is a statistical observation: N archives with identical inputs, in one process and across processes, never repeat a key, nonce, ephemeral key or wrapped key; bit balance within 6 sigma".into());
     rep.assumptions.push("absence of plaintext is observed on unique 128-bit markers (a chance occurrence in ciphertext has probability < 2^-100); pseudo-randomness of AES-CTR itself is assumed".into());
